@@ -5,7 +5,7 @@
      dealloc later).  "zombie" = cleared by the GC, not yet deallocated (not reachable from Python). *)
 From Coq Require Import ZArith NArith List Bool.
 Import ListNotations.
-From Cffi Require Import C27.Model C27.Proofs.
+From Cffi Require Import C27.Model C27.Proofs C27.Deep.
 
 (* Scope: the model is the backend's single, process-global unique_cache; the clause "any number of
    FFI objects, type strings, generated modules" adds only front ends that all end in the same
@@ -24,11 +24,34 @@ Theorem C27_canonical : forall s o1 o2,
 Proof. exact canonical. Qed.
 Print Assumptions C27_canonical.
 
-(* ---- which objects enter each unique_key, as the source says NOW (C27/Gen.v, regenerated on every run
-   from the unique_key[...] assignments and the key length given to get_unique_type).  The model's key of
-   a new type is DEFINED from these recipes (Model.v: key_kids / func_key_stored), so C27_entries_sound,
-   C27_canonical and C27_new_returns are about the current text: a key built from objects the new type
-   does not itself reference (e.g. the caller's undecayed argument tuple) breaks Proofs.v. *)
+(* the same over whole description TREES: [descr n h i] is the tree of shapes below object i, aggregates
+   (not uniqued) being leaves identified by their object; two live types of a reachable state with the same
+   tree — e.g. both "pointer to array of 5 pointers to struct #12" — are one object.  (The fuel n only
+   bounds the depth: the statement holds for any fuels that suffice to produce the trees.) *)
+Theorem C27_canonical_deep : forall s,
+  reachable s -> forall n1 n2 o1 o2 d,
+  In o1 (heap s) -> In o2 (heap s) -> t_zombie o1 = false -> t_zombie o2 = false ->
+  descr n1 (heap s) (t_oid o1) = Some d -> descr n2 (heap s) (t_oid o2) = Some d -> o1 = o2.
+Proof. exact canonical_deep. Qed.
+Print Assumptions C27_canonical_deep.
+
+(* non-vacuity: the trees of an array of 5 pointers to pointer to a struct, and of a function taking it *)
+Example C27_example_descr :
+  let s := fst (run init [New 1 (5, 0%Z) [] 10; New 2 (2, 0%Z) [0] 20; New 3 (2, 0%Z) [1] 30; New 4 (3, 5%Z) [2] 40;
+                          New 5 (0, 7%Z) [] 50; New 6 (4, 1%Z) [4; 3] 60]%N) in
+  descr 6 (heap s) 3 = Some (DNode (3%N, 5%Z) [DNode (2%N, 0%Z) [DNode (2%N, 0%Z) [DAgg 0%N]]]) /\
+  descr 6 (heap s) 5 = Some (DNode (4%N, 1%Z) [DNode (0%N, 7%Z) []; DNode (2%N, 0%Z) [DNode (2%N, 0%Z) [DAgg 0%N]]]) /\
+  descr 2 (heap s) 3 = None.
+Proof. vm_compute. repeat split; reflexivity. Qed.
+
+(* ---- which expression is stored in each unique_key slot, as the source says NOW (C27/Gen.v, regenerated on
+   every run from the unique_key[i] = ... assignments and the key length given to get_unique_type; an
+   expression outside the vocabulary becomes KOther).  The model's key of a new type is the WORD LIST built
+   from these recipes (Model.v: key_of = flat_map src_words (recipe_of kind); key_kids / func_key_stored), so
+   C27_entries_sound, C27_canonical, C27_new_returns and C27_key_words_injective are about the current text: a
+   key built from objects the new type does not itself reference (the caller's undecayed argument tuple), or a
+   second array word that is not the length (the byte size: 0 for every length when the item has size 0),
+   breaks Proofs.v. *)
 Theorem C27_gen_key_recipes :
   primitive_key = [KStatic] /\ void_key = [KStatic] /\
   pointer_key = [KItem] /\                                   (* the item type, stored in ct_itemdescr *)
@@ -36,6 +59,53 @@ Theorem C27_gen_key_recipes :
   function_key = [KResult; KFlags; KNargs; KArgsStored].     (* result, abi+ellipsis, count, the stored (decayed) args *)
 Proof. repeat split; reflexivity. Qed.
 Print Assumptions C27_gen_key_recipes.
+
+(* The key is nothing but words (no kind tag): equal words imply equal descriptions.  One-word keys: static
+   objects (primitives, void) against heap objects (pointers); two words: arrays, [pointer type; length mod
+   2^64] with length in -1 .. 2^63-1; three or more words: functions.  First for ANY heap with pairwise
+   different addresses and any two well-formed descriptions over live children, then for the live types of a
+   reachable state.  (Static storage is modelled as words < 0, heap addresses as words >= 0.) *)
+Theorem C27_key_words_determine_description : forall h sh1 k1 sh2 k2,
+  NoDup (map t_addr h) ->
+  wf_shape sh1 (length k1) = true -> wf_shape sh2 (length k2) = true ->
+  is_agg sh1 = false -> is_agg sh2 = false ->
+  (forall c, In c k1 -> alive_nz h c = true) -> (forall c, In c k2 -> alive_nz h c = true) ->
+  key_of h sh1 k1 = key_of h sh2 k2 -> sh1 = sh2 /\ k1 = k2.
+Proof. exact key_of_inj. Qed.
+Print Assumptions C27_key_words_determine_description.
+
+Theorem C27_key_words_injective : forall s o1 o2,
+  reachable s -> In o1 (heap s) -> In o2 (heap s) -> t_zombie o1 = false -> t_zombie o2 = false ->
+  is_agg (t_shape o1) = false -> is_agg (t_shape o2) = false ->
+  key_of (heap s) (t_shape o1) (t_kids o1) = key_of (heap s) (t_shape o2) (t_kids o2) ->
+  t_shape o1 = t_shape o2 /\ t_kids o1 = t_kids o2.
+Proof. exact key_words_injective. Qed.
+Print Assumptions C27_key_words_injective.
+
+(* the open array's length word is 2^64-1, and arrays of the same pointer type with lengths 7 and 9 have
+   different words whatever the item size is *)
+Example C27_example_key_words :
+  let h := [ {| t_oid := 1; t_addr := 40; t_shape := (2%N, 0%Z); t_kids := [0%N]; t_ukey := None; t_zombie := false |};
+             {| t_oid := 0; t_addr := 24; t_shape := (0%N, 7%Z); t_kids := []; t_ukey := None; t_zombie := false |} ]%N in
+  key_of h (0%N, 7%Z) [] = [(-9)%Z] /\ key_of h (1%N, 0%Z) [] = [(-1)%Z] /\ key_of h (2%N, 0%Z) [0%N] = [24%Z] /\
+  key_of h (3%N, (-1)%Z) [1%N] = [40%Z; 18446744073709551615%Z] /\
+  key_of h (3%N, 7%Z) [1%N] = [40%Z; 7%Z] /\ key_of h (3%N, 9%Z) [1%N] = [40%Z; 9%Z] /\
+  key_of h (4%N, 1%Z) [0%N; 1%N; 1%N] = [24%Z; 1%Z; 2%Z; 40%Z; 40%Z].
+Proof. vm_compute. repeat split; reflexivity. Qed.
+
+(* ---- the cache protocol, as the source says NOW (C27/Gen.v, regenerated): remove_dead_unique_reference
+   deletes only under the dead-weakref test; ctypedescr_dealloc clears the weak references, then removes the
+   key, then releases the children and the memory; get_or_insert_unique_type returns a live hit before it
+   inserts and sets ct_unique_key only on insertion; tp_clear resets the two child fields only.  [Free], [New]
+   and [GcClear] of Model.v consult these (free_cache, weakrefs_cleared_first, gen_insert_after_live_check,
+   clear_drops_ukey): with another protocol step_inv (hence every theorem here) is not proved. *)
+Theorem C27_gen_cache_protocol :
+  gen_remove_only_if_dead = true /\
+  gen_dealloc_order = [DClearWeakrefs; DRemoveKey; DDecrefItem; DDecrefStuff; DFree] /\
+  gen_insert_after_live_check = true /\
+  gen_clear_fields = [FItem; FStuff].
+Proof. repeat split; reflexivity. Qed.
+Print Assumptions C27_gen_cache_protocol.
 
 (* the decayed arguments are alive whenever the given ones are (the extra test in New never fires) *)
 Theorem C27_decayed_args_alive : forall s sh kids0,
